@@ -155,7 +155,10 @@ fn format_replay(cases_path: &str, out_path: &str) {
     out.finish();
 }
 
-const STRS: &[&str] = &["", "A", "BC", "ｱ", "あ", "ソ", "表", "Hello", "AB", "label", "Count", "日本語ソ", "x\\n"];
+const STRS: &[&str] = &["", "A", "BC", "ｱ", "あ", "ソ", "表", "Hello", "AB", "label", "Count", "日本語ソ", "x\\n",
+    // long strings: more than 64 / 128 encoded bytes, double-byte characters straddling those offsets
+    "xアニメーションのなまえがとてもながいばあいのてすとアニメーションのなまえがとてもながい",
+    "uEAnim_M_ch100_non_0123456789_abcdefghijklmnopqrstuvwxyz_ABCDEFGHIJKLMNOPQRSTUVWXYZ_0123456789_abcdefghijklmnopqrstuvwxyz_ABCDEFGH_表表表"];
 
 fn random_content(rng: &mut Rng, maxcells: usize, allow_cstr: bool) -> Value {
     let endian = if rng.chance(1, 2) { "le" } else { "be" };
@@ -767,8 +770,20 @@ fn sm_record(out_path: &str, focus: &str, runs: usize, len: usize) {
         };
         let reset = |a: &BinArchive| json!({"op": "reset", "a": 0, "n": 0, "ge": false, "bs": [], "t": 0, "ty": "", "res": res_unit(), "pos": 0, "post": sm_project(a, &e)});
         out.put(&reset(&a));
-        for _ in 0..len {
+        for step in 0..len {
             let p = sm_project(&a, &e);
+            // now and then (and at the end of every run): serialize the archive as the history left it
+            if step + 1 == len || rng.chance(1, 40) {
+                let mut sv = ev("serialize", 0, 0, false, json!([]), 0, "");
+                sv["res"] = match catch(|| a.serialize()) {
+                    Ok(Ok(bytes)) => res_val(bytes_to_json(&bytes)),
+                    Ok(Err(_)) => res_err(),
+                    Err(pn) => json!({"panic": pn}),
+                };
+                sv["pos"] = json!(0);
+                sv["post"] = sm_project(&a, &e);
+                out.put(&sv);
+            }
             let mut evv = random_event(&mut rng, &p, focus);
             match catch(|| sm_apply(&mut a, &evv)) {
                 Ok((res, pos)) => {
